@@ -1007,8 +1007,10 @@ class UserType(TupleType):
 
     @classmethod
     def apply_parameters(cls, subtypes, names):
-        keyspace = subtypes[0].cass_parameterized_type()  # when parsed from cassandra type, the keyspace is created as an unrecognized cass type; This gets the name back
-        udt_name = _name_from_hex_string(subtypes[1].cassname)
+        # the keyspace and the hex-encoded type name are parsed as unrecognized cass types whose names give the text back; a token made of
+        # digits only (the hex of 'address', 'user', 'test', ... has no letters) comes out of the parser as an int
+        keyspace = str(subtypes[0]) if isinstance(subtypes[0], int) else subtypes[0].cass_parameterized_type()
+        udt_name = _name_from_hex_string(str(subtypes[1]) if isinstance(subtypes[1], int) else subtypes[1].cassname)
         field_names = tuple(_name_from_hex_string(encoded_name) for encoded_name in names[2:])  # using tuple here to match what comes into make_udt_class from other sources (for caching equality test)
         return cls.make_udt_class(keyspace, udt_name, field_names, tuple(subtypes[2:]))
 
